@@ -46,7 +46,7 @@ def family(name):
 PRIMARY = ('duplicate_declaration',)
 
 
-def judge_text(run, text, label, case, blackboxes=(), root_kind='structural'):
+def judge_text(run, text, label, case, blackboxes=(), root_kind='structural', single_module=False):
     run.ev()
     run.count('texts')
     d = vlog.check_design(text, blackboxes)
@@ -65,6 +65,10 @@ def judge_text(run, text, label, case, blackboxes=(), root_kind='structural'):
             dup_names.setdefault(dg.module, set()).add(dg.info.get('name'))
     seen = set()
     for dg in d.diags:
+        if single_module and dg.code == 'undefined_module':
+            # a single-module request (getVerilog) does not include the modules it instantiates: they are external here
+            run.count('external_modules_of_single_module_text')
+            continue
         if dg.code != 'duplicate_declaration' and _mentions(dg, dup_names):
             run.count('secondary_diagnostics')
             continue
@@ -574,6 +578,45 @@ def run_check(run, tier, seed, shard):
             continue
         judge_text(run, text, plan['name'], dict(workload='random', plan=plan))
         check_interchangeable(run, des.dut, plan['name'], dict(workload='random', plan=plan))
+    # (h) histories: the text returned after an earlier request and a structural change must still be a closed design
+    n = 60 if quick else 1500
+    for i in shard_slice(range(n), shard):
+        if time.time() > deadline or run.too_many:
+            break
+        rnd = rng(seed, 'c03-history', i)
+        g = dutgen.Gen(rnd, max_width=rnd.choice([8, 16]))
+        plan = g.plan(n_nodes=rnd.randint(3, 10), depth=rnd.randint(0, 2))
+        try:
+            des = dutgen.instantiate(plan)
+            dut = des.dut
+            with muted():
+                gen = py4hw.VerilogGenerator(dut)
+                first = rnd.choice(['module', 'hier'])
+                if first == 'module':
+                    gen.getVerilog(dut)
+                else:
+                    gen.getVerilogForHierarchy()
+                # expose an internal net as a new output port and/or add a block on a new local wire
+                local = [w for n_, w in dut._wires.items()]
+                change = rnd.choice(['expose', 'add', 'both']) if local else 'add'
+                if change in ('expose', 'both') and local:
+                    w = rnd.choice(local)
+                    dut.addOut('dbg_' + w.name, w)
+                if change in ('add', 'both'):
+                    src = des.ins[0] if des.ins else des.outs[0]
+                    t = dut.wire('late_t', src.getWidth())
+                    o = des.hw.wire('late_o', src.getWidth())
+                    py4hw.Not(dut, 'late_n', src, t)
+                    py4hw.Buf(dut, 'late_b', t, o)
+                    dut.addOut('late_o', o)
+                g2 = gen if rnd.random() < 0.5 else py4hw.VerilogGenerator(dut)
+                single = rnd.random() < 0.5
+                text = g2.getVerilog(dut) if single else g2.getVerilogForHierarchy()
+        except Exception:
+            run.count('refused')
+            continue
+        run.count('history_texts')
+        judge_text(run, text, plan['name'] + '/history', dict(workload='history', plan=plan, first=first, change=change, single=single), single_module=single)
     # texts handed over by the transpiler corpus (C02) when that module exists
     try:
         from . import c02
